@@ -34,10 +34,11 @@ func (r *Rand) Intn(n int) int {
 	}
 	return int(r.Uint64() % uint64(n))
 }
-func (r *Rand) Bool() bool            { return r.Uint64()&1 == 1 }
-func (r *Rand) Chance(p float64) bool { return float64(r.Uint64()>>11)/float64(1<<53) < p }
-func (r *Rand) Fork() *Rand           { return &Rand{s: r.Uint64()} }
-func (r *Rand) Pick(xs ...int) int    { return xs[r.Intn(len(xs))] }
+func (r *Rand) Bool() bool                { return r.Uint64()&1 == 1 }
+func (r *Rand) Chance(p float64) bool     { return float64(r.Uint64()>>11)/float64(1<<53) < p }
+func (r *Rand) Fork() *Rand               { return &Rand{s: r.Uint64()} }
+func (r *Rand) Pick(xs ...int) int        { return xs[r.Intn(len(xs))] }
+func (r *Rand) PickS(xs ...string) string { return xs[r.Intn(len(xs))] }
 
 // Violation is one refuting observation. Sig is the signature matched against
 // known_findings.json; it must identify the failing input class/call site, not the property.
